@@ -54,6 +54,8 @@ class Check:
         self.assumptions = []
         self.violations = []      # (sig, record)
         self.known = [k for k in load_known() if k["property"] == pid and k["status"] == "known"]
+        if os.environ.get("VERIF_IGNORE_KNOWN") == "1":      # development aid: show known findings as violations
+            self.known = []
         self.known_hits = {}
         self._distinct = set()
 
